@@ -616,6 +616,7 @@ Variable f : Z -> Z -> Z.
 Variable cf : cfg.
 Hypothesis f_assoc : forall a b c, f (f a b) c = f a (f b c).
 Hypothesis Hlift : c_lifted cf = true.
+Hypothesis Hzv : c_has_zero cf = true -> c_zero_valid cf = true.
 
 Variable st : store.
 Variable L : list leaf.
@@ -643,6 +644,7 @@ Lemma needed_iff j u : 1 <= j -> j <= k -> u < 2 ^ (k - j) ->
   (needed cf (2 ^ k) live (pos k j u) = true <->
    (pos k j u = 0 /\ c_has_zero cf = true /\ live = 1) \/ u * 2 ^ j + 2 ^ (j - 1) < live).
 Proof.
+  clear Hzv.
   intros H1 H2 H3. unfold needed.
   rewrite (pos_left k j u H1 H2), (pos_right k j u H1 H2).
   assert (Hu0 : 2 * u < 2 ^ (k - (j - 1))).
@@ -765,7 +767,7 @@ Proof.
     { rewrite (pos_right k k 0 H1 H2).
       assert (E : resolve (2 ^ k) live (pos k (k - 1) (2 * 0 + 1)) = AEmpty).
       { apply resolve_empty_iff; try lia. }
-      rewrite E. unfold aval, agg_src. rewrite Hz1. cbn [src_value]. rewrite Hz1. reflexivity. }
+      rewrite E. unfold aval, agg_src. rewrite Hz1. cbn [src_value]. rewrite Hz1, (Hzv Hz1). reflexivity. }
     exists (mkComb (cb_l c) (cb_r c) (Some (f v (c_zero cf))) false), v, (c_zero cf).
     split; [congruence|]. split; [apply eval_at_lifted; assumption|].
     intros j' u' B1 B2 B3 B4. apply pos_inj in B4; try lia. destruct B4 as [<- <-].
@@ -884,6 +886,7 @@ Variable f : Z -> Z -> Z.
 Variable cf : cfg.
 Hypothesis f_assoc : forall a b c, f (f a b) c = f a (f b c).
 Hypothesis Hlift : c_lifted cf = true.
+Hypothesis Hzv : c_has_zero cf = true -> c_zero_valid cf = true.
 
 (* A combine point that is right for (L, vals) stays right for (L', vals') when nothing
    under it changed. *)
@@ -937,7 +940,7 @@ Proof.
   unfold root_aggregate.
   destruct (length L =? 0) eqn:E0.
   { apply Nat.eqb_eq in E0. destruct vals; [|simpl in Hlv; lia].
-    unfold aval, agg_src, spec_result. destruct (c_has_zero cf) eqn:Ez; cbn [src_value]; rewrite ?Ez; reflexivity. }
+    unfold aval, agg_src, spec_result. destruct (c_has_zero cf) eqn:Ez; cbn [src_value]; rewrite ?Ez; [rewrite (Hzv eq_refl)|]; reflexivity. }
   apply Nat.eqb_neq in E0.
   assert (Hroot : forall j' u', 1 <= j' -> j' <= k -> u' < 2 ^ (k - j') -> u' * 2 ^ j' = 0 * 2 ^ k ->
             u' * 2 ^ j' + 2 ^ (j' - 1) < length L -> sem_at f L vals k combs j' u').
@@ -1009,6 +1012,7 @@ Variable f : Z -> Z -> Z.
 Variable cf : cfg.
 Hypothesis f_assoc : forall a b c, f (f a b) c = f a (f b c).
 Hypothesis Hlift : c_lifted cf = true.
+Hypothesis Hzv : c_has_zero cf = true -> c_zero_valid cf = true.
 
 (* The positions the evaluation pass visits, as a set: present, and either structural or on the
    path of a leaf whose value ticked (or the root). *)
@@ -1114,7 +1118,7 @@ Lemma eval_visited st' k L' vals' combs1 E :
     (forall p, p < internals (2 ^ k) -> present combs2 p = true -> good f cf L' vals' k combs2 p).
 Proof.
   intros Hvals Hcap Hs Hwf Hclean.
-  destruct (eval_loop f cf f_assoc Hlift st' L' vals' k Hvals Hcap E combs1 [] [] Hs Hwf)
+  destruct (eval_loop f cf f_assoc Hlift Hzv st' L' vals' k Hvals Hcap E combs1 [] [] Hs Hwf)
     as [combs2 [log [w [Hev [Hwf2 Hg2]]]]].
   { intros p Hp Hnin Hpr. apply Hclean; assumption. }
   exists combs2, log, w. split; [exact Hev|]. split; [exact Hwf2|]. split; [|exact Hg2].
@@ -1137,6 +1141,7 @@ Variable f : Z -> Z -> Z.
 Variable cf : cfg.
 Hypothesis f_assoc : forall a b c, f (f a b) c = f a (f b c).
 Hypothesis Hlift : c_lifted cf = true.
+Hypothesis Hzv : c_has_zero cf = true -> c_zero_valid cf = true.
 
 (* The invariant of the reduction tree between cycles. *)
 Record tree_inv (st : store) (L : list leaf) (vals : list Z) (k : nat) (combs : list (option comb)) : Prop := {
@@ -1150,7 +1155,7 @@ Record tree_inv (st : store) (L : list leaf) (vals : list Z) (k : nat) (combs : 
 Lemma tree_inv_result st L vals k combs : tree_inv st L vals k combs ->
   src_value cf st combs (agg_src cf L combs (root_aggregate (c_has_zero cf) (2 ^ k) (length L) (length combs)))
   = spec_result f cf vals.
-Proof. intros [H1 H2 H3 H4 H5]. exact (root_value f cf st L vals k combs H1 H2 H3 H4 H5). Qed.
+Proof. intros [H1 H2 H3 H4 H5]. exact (root_value f cf Hzv st L vals k combs H1 H2 H3 H4 H5). Qed.
 
 (* One cycle without capacity growth: the structural pass over the paths of the structural leaves,
    then the evaluation pass over (structural positions that hold a combiner) + (paths of the leaves
@@ -1170,7 +1175,7 @@ Proof.
   assert (Hlv : length vals = length L) by (destruct T1; assumption).
   destruct (partial_rebuild_ok f cf st' k L vals L' vals' combs sleaves dm combs1 cr rt
               Hvals' Hlv T2 Hcap' T4 T5 HL Hv Hph) as [W1 W2].
-  destruct (eval_visited f cf f_assoc Hlift st' k L' vals' combs1 (visited k combs1 spos dm extra)
+  destruct (eval_visited f cf f_assoc Hlift Hzv st' k L' vals' combs1 (visited k combs1 spos dm extra)
               Hvals' Hcap' (sort_desc_unique_sorted _) W1) as [combs2 [log [w [E1 [E2 [E3 E4]]]]]].
   { intros p Hp Hpr Hnin. apply W2; try assumption. intros Hc. apply Hnin.
     unfold visited in Hc |- *. apply (proj1 (sort_desc_unique_in _ _)) in Hc.
@@ -1194,7 +1199,7 @@ Lemma cycle_full st' k L' vals' combs0 combs1 cr rt dm extra :
 Proof.
   intros Hvals' Hcap' Hz Hlen spos Hph.
   pose proof (full_rebuild_ok cf k L' combs0 combs1 cr rt Hlen Hph) as W1.
-  destruct (eval_visited f cf f_assoc Hlift st' k L' vals' combs1 (visited k combs1 spos dm extra)
+  destruct (eval_visited f cf f_assoc Hlift Hzv st' k L' vals' combs1 (visited k combs1 spos dm extra)
               Hvals' Hcap' (sort_desc_unique_sorted _) W1) as [combs2 [log [w [E1 [E2 [E3 E4]]]]]].
   { intros p Hp Hpr Hnin. exfalso. apply Hnin. unfold visited. apply sort_desc_unique_in.
     apply in_app_iff. left. apply filter_In. split; [|exact Hpr].
@@ -1263,19 +1268,20 @@ End Zero.
 
 Lemma order_independent f cf :
   (forall a b c, f (f a b) c = f a (f b c)) -> (forall a b, f a b = f b a) -> c_lifted cf = true ->
+  (c_has_zero cf = true -> c_zero_valid cf = true) ->
   forall st1 L1 vals1 k1 combs1 st2 L2 vals2 k2 combs2,
   tree_inv f cf st1 L1 vals1 k1 combs1 -> tree_inv f cf st2 L2 vals2 k2 combs2 ->
   Permutation vals1 vals2 ->
   src_value cf st1 combs1 (agg_src cf L1 combs1 (root_aggregate (c_has_zero cf) (2 ^ k1) (length L1) (length combs1))) =
   src_value cf st2 combs2 (agg_src cf L2 combs2 (root_aggregate (c_has_zero cf) (2 ^ k2) (length L2) (length combs2))).
 Proof.
-  intros Ha Hc Hl st1 L1 vals1 k1 combs1 st2 L2 vals2 k2 combs2 T1 T2 HP.
-  rewrite (tree_inv_result f cf st1 L1 vals1 k1 combs1 T1), (tree_inv_result f cf st2 L2 vals2 k2 combs2 T2).
+  intros Ha Hc Hl Hz st1 L1 vals1 k1 combs1 st2 L2 vals2 k2 combs2 T1 T2 HP.
+  rewrite (tree_inv_result f cf Hz st1 L1 vals1 k1 combs1 T1), (tree_inv_result f cf Hz st2 L2 vals2 k2 combs2 T2).
   apply spec_result_perm; assumption.
 Qed.
 
 (* ---- a concrete inhabitant of the invariant and of the hypotheses of the cycle lemma ---- *)
-Definition ex_cf : cfg := mkCfg false true false 0%Z.
+Definition ex_cf : cfg := mkCfg false true false 0%Z true.
 Definition ex_store (v1 : Z) : store := mkStore 8 [2; 3; 4; 5; 6; 7] [] [(0, (10%Z, 1%Z)); (1, (11%Z, v1))] true.
 Definition ex_leaves : list leaf := [mkLeaf 10%Z 0; mkLeaf 11%Z 1].
 Definition ex_combs (out : Z) : list (option comb) := [Some (mkComb SNone SNone (Some out) false)].
@@ -1316,7 +1322,7 @@ Definition example_cycle : Prop :=
 Lemma example_cycle_holds : example_cycle.
 Proof.
   unfold example_cycle.
-  apply (cycle_partial Z.add ex_cf (fun a b c => eq_sym (Z.add_assoc a b c)) eq_refl (ex_store 2%Z) (ex_store 64%Z) 1
+  apply (cycle_partial Z.add ex_cf (fun a b c => eq_sym (Z.add_assoc a b c)) eq_refl (fun _ => eq_refl) (ex_store 2%Z) (ex_store 64%Z) 1
            ex_leaves [1%Z; 2%Z] ex_leaves [1%Z; 64%Z] (ex_combs 3%Z) [] [1] [] (ex_combs 3%Z) [] []).
   - exact (ex_tree_inv 2%Z).
   - apply ex_leaf_vals.
@@ -1555,6 +1561,7 @@ Variable f : Z -> Z -> Z.
 Variable cf : cfg.
 Hypothesis f_assoc : forall a b c, f (f a b) c = f a (f b c).
 Hypothesis Hlift : c_lifted cf = true.
+Hypothesis Hzv : c_has_zero cf = true -> c_zero_valid cf = true.
 
 Lemma reconcile_leaves_spec st d coll s L' sl stc full pr :
   reconcile_leaves cf st d coll s = (L', sl, stc, full, pr) ->
@@ -1622,7 +1629,7 @@ Definition cycle_inv (st : store) (s : rstate) (vals : list Z) : Prop :=
 
 Lemma pub_inv_result st s vals : pub_inv st s vals -> result_of cf st s = spec_result f cf vals.
 Proof.
-  intros [k [_ [T P]]]. unfold result_of. rewrite P. apply (tree_inv_result f cf st _ vals k _ T).
+  intros [k [_ [T P]]]. unfold result_of. rewrite P. apply (tree_inv_result f cf Hzv st _ vals k _ T).
 Qed.
 
 (* the dense indices of the leaves whose value ticked *)
@@ -1711,7 +1718,7 @@ Proof.
       { destruct (c =? r_cap s) eqn:Ec; cbn [negb].
         - apply Nat.eqb_eq in Ec. rewrite <- Ec in Ck0. rewrite (capk_inj c k k0 Ck Ck0). exact Hlen0.
         - rewrite repeat_length. apply capk_internals. exact Ck. }
-      destruct (cycle_full f cf f_assoc Hlift st k L' vals' _ combs1 cr rt dm extra Hvals' Hcap Hz Hlen Eph)
+      destruct (cycle_full f cf f_assoc Hlift Hzv st k L' vals' _ combs1 cr rt dm extra Hvals' Hcap Hz Hlen Eph)
         as [combs2 [log [w [Eev [Tinv Hpres]]]]].
       unfold visited in Eev. rewrite Eev.
       cbn [o_state set_combs r_leaves r_cap r_combs r_pub r_published].
@@ -1733,7 +1740,7 @@ Proof.
       assert (Hconv_path : leaf_path c (length (r_combs s)) = leaf_path (2 ^ k) (length (r_combs s)))
         by (destruct Ck as [->|[-> ->]]; reflexivity).
       rewrite Hconv_path in Eph |- *.
-      destruct (cycle_partial f cf f_assoc Hlift st0 st k (r_leaves s) vals L' vals' (r_combs s) sl dm extra
+      destruct (cycle_partial f cf f_assoc Hlift Hzv st0 st k (r_leaves s) vals L' vals' (r_combs s) sl dm extra
                   combs1 cr rt Htree0 Hvals' Hcap (HL eq_refl) (Hv eq_refl) Eph)
         as [combs2 [log [w [Eev [Tinv Hpres]]]]].
       unfold visited in Eev. rewrite Eev.
@@ -1766,7 +1773,7 @@ Proof.
     rewrite Hconv_eval, Hconv_lp.
     set (extra := if zero && (length (r_leaves s) =? 1) && present (r_combs s) 0 then [0] else []).
     assert (Hcap : length (r_leaves s) <= 2 ^ k) by (destruct Tinv0; assumption).
-    destruct (cycle_partial f cf f_assoc Hlift st0 st k (r_leaves s) vals (r_leaves s) vals' (r_combs s) [] dm extra
+    destruct (cycle_partial f cf f_assoc Hlift Hzv st0 st k (r_leaves s) vals (r_leaves s) vals' (r_combs s) [] dm extra
                 (r_combs s) [] [] Tinv0 Hvals' Hcap (fun i _ => eq_refl) (Hv (andb_false_r full)) eq_refl)
       as [combs2 [log [w [Eev [Tinv Hpres]]]]].
     unfold visited in Eev. cbn [map concat] in Eev. change (sort_desc_unique []) with (@nil nat) in Eev.
@@ -1871,20 +1878,21 @@ End Step.
 (* order independence over whole histories, associative-commutative combiner *)
 Theorem run_order_independent f cf :
   (forall a b c, f (f a b) c = f a (f b c)) -> (forall a b, f a b = f b a) -> c_lifted cf = true ->
+  (c_has_zero cf = true -> c_zero_valid cf = true) ->
   forall h1 h2, hist_ok f cf rstate0 [] h1 -> hist_ok f cf rstate0 [] h2 ->
   r_published (run f cf h1) = true -> r_published (run f cf h2) = true ->
   Permutation (snd (final (store0, []) h1)) (snd (final (store0, []) h2)) ->
   result_of cf (fst (final (store0, []) h1)) (run f cf h1) = result_of cf (fst (final (store0, []) h2)) (run f cf h2).
 Proof.
-  intros Ha Hc Hl h1 h2 O1 O2 P1 P2 HP.
-  rewrite (run_eq_fold f cf Ha Hl h1 O1 P1), (run_eq_fold f cf Ha Hl h2 O2 P2).
+  intros Ha Hc Hl Hz h1 h2 O1 O2 P1 P2 HP.
+  rewrite (run_eq_fold f cf Ha Hl Hz h1 O1 P1), (run_eq_fold f cf Ha Hl Hz h2 O2 P2).
   apply spec_result_perm; assumption.
 Qed.
 
 (* ---- non-vacuity of the history theorem ---- *)
 (* a concrete three-cycle history produced by the slot-store model: {10:1, 11:2} added, 11 ticks to 64,
    10 removed (swap-last) *)
-Definition exh_cf : cfg := mkCfg false true false 0%Z.
+Definition exh_cf : cfg := mkCfg false true false 0%Z true.
 Definition exh_sd1 := store_apply_dict [] [(10%Z, 1%Z); (11%Z, 2%Z)] store0.
 Definition exh_st1 := store_validate (fst exh_sd1).
 Definition exh_sd2 := store_apply_dict [] [(11%Z, 64%Z)] exh_st1.
